@@ -606,6 +606,12 @@ func c01parent(c *hx.Ctx) error {
 			BlocksFile: filepath.Join(c.Out, fmt.Sprintf("blocks-%d.txt", seed)), TraceFile: filepath.Join(c.Out, fmt.Sprintf("trace-%d-gen.txt", seed))}
 		rep, err := runChild(base, "UTC")
 		if err != nil {
+			// as for followers: a generator process that dies is run once more before it counts as an error
+			c.Hit("generator-process-died:retried")
+			c.Rep.Notes = append(c.Rep.Notes, fmt.Sprintf("generator of history %d died: %s", seed, tail(err.Error(), 1200)))
+			rep, err = runChild(base, "UTC")
+		}
+		if err != nil {
 			return err
 		}
 		c.Rep.Evaluations++
@@ -636,29 +642,47 @@ func c01parent(c *hx.Ctx) error {
 				os.RemoveAll(p.DBDir)
 				os.MkdirAll(p.DBDir, 0755)
 				os.Remove(p.TraceFile)
-				// the life of a follower: one process per stretch between restarts, all over the same on-disk database
-				all := &hx.Report{}
+				// the life of a follower: one process per stretch between restarts, all over the same on-disk database.
+				// A process that dies (not a refused block: a crash of the node, e.g. a data race between the node's own
+				// goroutines) is no verdict on the state transition: the follower's whole life is run once more from a new
+				// database, the crash is recorded (coverage bucket and note), and only a second death is an error.
+				var all *hx.Report
 				var err error
-				for seg := 0; seg < 1000; seg++ {
-					p.Seg = seg
-					var rp *hx.Report
-					rp, err = runChild(p, e.tz)
-					if err != nil {
+				for attempt := 0; attempt < 2; attempt++ {
+					all = &hx.Report{}
+					err = nil
+					p.StartAt, p.Seg = 0, 0
+					os.RemoveAll(p.DBDir)
+					os.MkdirAll(p.DBDir, 0755)
+					os.Remove(p.TraceFile)
+					for seg := 0; seg < 1000; seg++ {
+						p.Seg = seg
+						var rp *hx.Report
+						rp, err = runChild(p, e.tz)
+						if err != nil {
+							break
+						}
+						all.Failures = append(all.Failures, rp.Failures...)
+						all.Notes = append(all.Notes, rp.Notes...)
+						var pr c01progress
+						pb, rerr := os.ReadFile(filepath.Join(childDir(p), "progress.json"))
+						if rerr != nil || json.Unmarshal(pb, &pr) != nil || pr.Done || len(rp.Failures) > 0 {
+							break
+						}
+						if pr.Next <= p.StartAt && seg > 0 {
+							err = fmt.Errorf("follower %s made no progress after line %d", e.label, p.StartAt)
+							break
+						}
+						p.StartAt = pr.Next
+						os.RemoveAll(childDir(p))
+					}
+					if err == nil {
 						break
 					}
-					all.Failures = append(all.Failures, rp.Failures...)
-					all.Notes = append(all.Notes, rp.Notes...)
-					var pr c01progress
-					pb, rerr := os.ReadFile(filepath.Join(childDir(p), "progress.json"))
-					if rerr != nil || json.Unmarshal(pb, &pr) != nil || pr.Done || len(rp.Failures) > 0 {
-						break
-					}
-					if pr.Next <= p.StartAt && seg > 0 {
-						err = fmt.Errorf("follower %s made no progress after line %d", e.label, p.StartAt)
-						break
-					}
-					p.StartAt = pr.Next
-					os.RemoveAll(childDir(p))
+					mu.Lock()
+					c.Hit("follower-process-died:retried")
+					c.Rep.Notes = append(c.Rep.Notes, fmt.Sprintf("follower %s of history %d died (attempt %d): %s", e.label, seed, attempt+1, tail(err.Error(), 1200)))
+					mu.Unlock()
 				}
 				os.RemoveAll(p.DBDir)
 				mu.Lock()
